@@ -1,6 +1,6 @@
 \* repaired; two streams: Hon
 CONSTANTS Streams <- MCStreams Choices <- ChHon BadBatches <- MCBad InitHeight = 1 MaxHeight = 2
-  InputCap = 2 OutCap = 1 MaxDup = 2 MaxExtra = 1 MaxGot = 2
+  InputCap = 2 OutCap = 1 MaxDup = 1 MaxExtra = 0 MaxGot = 2
   FixNilState = TRUE FixBlock = TRUE FixReFin = TRUE SeqWindow = 8 BufBound = 8 Mut = "none"
 INIT Init
 NEXT Next
